@@ -21,7 +21,8 @@ TECHNIQUE = ('fault enumeration over generated histories with an allocation-fail
              'ones or the completed change (per element for bulk operations), a follow-up workload agrees with the '
              'reference model, reference counts of object keys / values equal the slots holding them; everything '
              'runs under ASan/UBSan with asserts enabled, so touching freed memory kills the worker (captured as a '
-             'crash)')
+             'crash); '
+             'a third of the cases run stored (clone committed to a mini-ZODB connection and swept before the fault is armed: allocations made while nodes are loaded inside the operation are enumerated too), followed by a commit and a fresh reader; every conflict-merge triple over a 3-key universe with every allocation failed in turn')
 RULE = ('a case is a configuration + build history + probe list; every (probe, n) pair is one fault injection.  '
         'evaluations = fault injections executed (+1 per probe for the fault-free counting pass).  Non-trivial '
         'injection: the probe mutates, or n >= 2 (the fault fell after at least one successful allocation), on a '
